@@ -1,6 +1,6 @@
 import FlVerif.Gen.CodeRaised
 import FlVerif.Lemmas.CodeCascade
-import FlVerif.Lemmas.CodeRule
+import FlVerif.Gen.CodeRule
 
 /-! # Functions translated a second time with the state kept at a raise: what a failing call leaves behind
 
